@@ -2,3 +2,5 @@ SPECIFICATION Spec
 INVARIANT IterBound
 INVARIANT NoIterationAfterBudget
 INVARIANT SearchReturns
+INVARIANT ConfiguredBudgetsEnforced
+PROPERTY EveryPassIsAnIteration
